@@ -179,3 +179,8 @@ Example C14_options_nonvacuous :
   /\ apply_opt default_opts SNDTIMEO (i32_bytes (-2)) = inr (EVal SNDTIMEO)
   /\ apply_opt default_opts SNDTIMEO [1; 0; 0] = inr (EVal SNDTIMEO).
 Proof. vm_compute. repeat split; reflexivity. Qed.
+(* the high-water marks read back as written; a negative value is clamped and reads back as 0 *)
+Theorem C14_hwm_option_get_after_set : forall (o : opts) (v : Z), (0 <= v <= 2147483647)%Z -> (exists o', apply_opt o SNDHWM (i32_bytes v) = inl o' /\ retrieve_opt o' SNDHWM = GOk (i32_bytes v)) /\ (exists o', apply_opt o RCVHWM (i32_bytes v) = inl o' /\ retrieve_opt o' RCVHWM = GOk (i32_bytes v)).
+Proof. exact hwm_get_after_set. Qed.
+Theorem C14_hwm_option_negative_reads_zero : forall (o : opts) (v : Z), (-2147483648 <= v < 0)%Z -> exists o', apply_opt o SNDHWM (i32_bytes v) = inl o' /\ retrieve_opt o' SNDHWM = GOk (i32_bytes 0).
+Proof. exact hwm_negative_reads_zero. Qed.
